@@ -166,8 +166,12 @@ def _clip(start, end, uid=None):
 
     global _REC
     if _REC is None:
-        _REC = data.Recording(path="r.wav", duration=1000.0, channels=1, samplerate=8000, uuid=uuid.UUID(int=7))
-    return data.Clip(recording=_REC, start_time=start, end_time=end, uuid=uid or uuid.UUID(int=11))
+        # recordings differ in things segmentation does not depend on (rate, channels, time expansion)
+        _REC = [data.Recording(path="r.wav", duration=1000.0, channels=1, samplerate=8000, uuid=uuid.UUID(int=7)),
+                data.Recording(path="bat.wav", duration=1000.0, channels=2, samplerate=384000, time_expansion=10.0, uuid=uuid.UUID(int=8)),
+                data.Recording(path="slow.flac", duration=1000.0, channels=1, samplerate=22050, time_expansion=0.5, uuid=uuid.UUID(int=9))]
+    rec = _REC[int(abs(start) * 4 + abs(end) * 2) % 3]
+    return data.Clip(recording=rec, start_time=start, end_time=end, uuid=uid or uuid.UUID(int=11))
 
 
 def judge(ctx, start, end, duration, hop, inc, ids=False):
